@@ -9,6 +9,7 @@ from .. import common
 from ..common import Suite, Finding, fhex, vhex, opt, Reader, lean_batch
 from ..probes import quiet, scratch
 from .c01 import make_mass, _hm
+from .. import distgen
 
 TRUSTED_EXTRA = ["C06: overflow of finite values inside a trajectory is float behaviour; the theorem only needs 'a proposal with NaN/+inf energy is rejected'"]
 ASSUMPTIONS = ["a NaN coordinate counts as outside every bound (model: outside1 = 'not inside')"]
@@ -29,7 +30,13 @@ def bounded_target(rnd, d):
     elif rnd.random() < 0.2:
         hi = None
     flavour = rnd.choice(["normal-own", "uniform", "bayes-inherited", "composite-blocks", "composite-own", "laplace-own",
-                          "bayes-own", "bayes-own-then-add", "bayes-update-then-add"])
+                          "bayes-own", "bayes-own-then-add", "bayes-update-then-add",
+                          "bayes-over-composite", "composite-nested", "bayes-own-lists", "composite-own-lists"])
+
+    def blocks(a0, b0):
+        return D.CompositeDistribution([D.Normal(mu[i:i + 1].copy(), var[i:i + 1].copy(), lower_bounds=None if lo is None else lo[i:i + 1].copy(),
+                                                 upper_bounds=None if hi is None else hi[i:i + 1].copy()) for i in range(a0, b0)])
+
     mu = np.array([[rnd.uniform(-0.3, 0.3)] for _ in range(d)])
     var = np.array([[rnd.choice([0.5, 1.0, 2.0])] for _ in range(d)])
     if flavour == "normal-own":
@@ -60,6 +67,18 @@ def bounded_target(rnd, d):
         dist.add_distribution(D.Normal(-mu, 2 * var))
     elif flavour == "composite-own":
         dist = D.CompositeDistribution([D.Normal(mu[i:i + 1].copy(), var[i:i + 1].copy()) for i in range(d)], lower_bounds=lo, upper_bounds=hi)
+    elif flavour == "bayes-over-composite":
+        # a prior assembled from per-parameter blocks, times an unbounded likelihood: the bounds are inherited from two levels down
+        dist = D.BayesRule([blocks(0, d), D.Normal(-mu, 2 * var)])
+    elif flavour == "composite-nested":
+        k = rnd.randint(1, d)
+        dist = D.CompositeDistribution([blocks(0, k)] + ([blocks(k, d)] if k < d else []))
+    elif flavour == "bayes-own-lists":
+        # the plain list of numbers that every elementary distribution accepts as bounds
+        dist = D.BayesRule([D.Normal(mu.copy(), var.copy())], lower_bounds=None if lo is None else lo.ravel().tolist(), upper_bounds=None if hi is None else hi.ravel().tolist())
+    elif flavour == "composite-own-lists":
+        dist = D.CompositeDistribution([D.Normal(mu[i:i + 1].copy(), var[i:i + 1].copy()) for i in range(d)],
+                                       lower_bounds=None if lo is None else lo.ravel().tolist(), upper_bounds=None if hi is None else hi.ravel().tolist())
     else:
         dist = D.CompositeDistribution([D.Normal(mu[i:i + 1].copy(), var[i:i + 1].copy(),
                                                  lower_bounds=None if lo is None else lo[i:i + 1].copy(),
@@ -77,6 +96,57 @@ def is_outside(x, lo, hi):
     if hi is not None:
         o = o or not bool(np.all(x <= hi))
     return o
+
+
+def raytracing_suite(rnd, count, findings):
+    """own bounds (update_bounds) on the layered ray tracer: zero probability outside, chains stay inside"""
+    from hmclab.Distributions import LayeredRayTracing2D
+    from hmclab.Samples import Samples
+    _, S, MM, D = _hm()
+    sr = Suite("C06.raytracing", "LayeredRayTracing2D (serial) with a velocity box set through update_bounds: misfit() = +inf at points violating a bound and finite inside; an RWMH "
+               "chain started inside with steps of the size of the box stores only samples inside with finite misfit; non-trivial = all")
+    with scratch() as tmp:
+        for ci in range(count):
+            n = rnd.choice([3, 4, 5])
+            inter = np.cumsum([rnd.choice([200.0, 300.0, 400.0]) for _ in range(n)])
+            rz = np.linspace(0.1 * inter[-1], 0.9 * inter[-1], rnd.choice([6, 8]))
+            vtrue = np.array([rnd.uniform(1500, 2500) for _ in range(n)])
+            with quiet(), np.errstate(all="ignore"):
+                ph = LayeredRayTracing2D(inter, [400.0], rz)
+                ph.parallel = False
+                obs = np.array(ph.forward(vtrue), dtype=float)
+                t = LayeredRayTracing2D(inter, [400.0], rz, traveltimes_observed=obs)
+                t.parallel = False
+                lo, hi = (vtrue - 100.0)[:, None], (vtrue + 100.0)[:, None]
+                t.update_bounds(lo.copy(), hi.copy())
+                stim = {"interfaces": inter.tolist(), "receivers": rz.tolist(), "true_velocities": vtrue.tolist(), "box": "true velocities +/- 100 m/s"}
+                sr.case(stim, nontrivial=True, sample=stim if len(sr.samples) < 2 else None)
+                problems = []
+                xin = vtrue[:, None] + np.array([[rnd.uniform(-60, 60)] for _ in range(n)])
+                xout = xin.copy()
+                xout[rnd.randrange(n), 0] += rnd.choice([-1, 1]) * rnd.uniform(200, 500)
+                mi, mo = float(t.misfit(xin.copy())), float(t.misfit(xout.copy()))
+                if not math.isfinite(mi):
+                    problems.append(f"misfit inside the box is {mi!r}")
+                if mo != math.inf:
+                    problems.append(f"misfit is {mo!r} at a point violating a bound (misfit_bounds there: {t.misfit_bounds(xout)!r})")
+                fn = os.path.join(tmp, f"ray{ci}.h5")
+                P = 30
+                try:
+                    S.RWMH(seed=rnd.randrange(1 << 30)).sample(fn, t, stepsize=80.0, initial_model=vtrue[:, None].copy(), proposals=P, disable_progressbar=True, overwrite_existing_file=True)
+                    sm = Samples(fn)
+                    arr = np.array(sm.numpy, dtype=float)
+                    sm.close()
+                    outside = [j for j in range(arr.shape[1]) if is_outside(arr[:-1, [j]], lo, hi) or not math.isfinite(arr[-1, j])]
+                    if outside:
+                        problems.append(f"RWMH chain started inside the box: {len(outside)} of {arr.shape[1]} stored samples lie outside the bounds or have a non-finite misfit "
+                                        f"(first: {arr[:-1, outside[0]].tolist()})")
+                except Exception as e:
+                    problems.append(f"sampling aborted: {e!r}")
+            if problems:
+                findings.append(Finding("C06", "LayeredRayTracing2D with bounds: " + problems[0][:300], {"kind": "raytracing-bounds", "problem": problems[0][:20]},
+                                        {"oracle": "bounds", "stimulus": stim, "problems": problems}))
+    return sr
 
 
 def run(tier, seed):
@@ -106,7 +176,7 @@ def run(tier, seed):
         with np.errstate(all="ignore"):
             m = float(dist.misfit(x.copy()))
             g = np.array(dist.gradient(x.copy()), dtype=float)
-            mb = float(base.misfit(x.copy())) if desc["flavour"] in ("normal-own", "composite-own", "composite-blocks") else None
+            mb = float(base.misfit(x.copy())) if desc["flavour"] in ("normal-own", "composite-own", "composite-blocks", "composite-nested", "composite-own-lists", "bayes-own-lists") else None
         stim = {"target": desc, "x": x.ravel().tolist()}
         st.case(stim, nontrivial=out, sample={"x": x.ravel().tolist(), "misfit": m, "outside": out} if len(st.samples) < 3 else None)
         st.count(f"flavour={desc['flavour']}")
@@ -121,8 +191,21 @@ def run(tier, seed):
                 problems.append(f"misfit inside the box ({m!r}) differs from the unbounded misfit ({mb!r})")
             if g.shape != (d, 1):
                 problems.append(f"gradient shape {g.shape}")
+        # the corrector mirrors each violating coordinate about its bound and negates exactly the matching momentum components
+        if (lo is not None or hi is not None) and np.all(np.isfinite(x)):
+            pm = np.array([[rnd.uniform(-2, 2)] for _ in range(d)])
+            qq, pp = x.copy(), pm.copy()
+            eq, ep = x.copy(), pm.copy()
+            distgen.reflect_box(lo, hi, eq, ep)
+            try:
+                dist.corrector(qq, pp)
+                if not (np.array_equal(qq, eq) and np.array_equal(pp, ep)):
+                    problems.append(f"corrector gives coordinates {qq.ravel().tolist()} / momenta {pp.ravel().tolist()}, mirrored at the bounds: {eq.ravel().tolist()} / {ep.ravel().tolist()}")
+            except Exception as e:
+                problems.append(f"corrector raised {e!r}")
+            st.count("corrector checked")
         if problems:
-            findings.append(Finding("C06", f"{desc['flavour']}: {problems[0]}", {"kind": "misfit", "problem": ("finite-outside" if "violating" in problems[0] else "inside-differs" if "inside the box" in problems[0] else "gradient-shape"),
+            findings.append(Finding("C06", f"{desc['flavour']}: {problems[0]}", {"kind": "misfit", "problem": ("finite-outside" if "violating" in problems[0] else "inside-differs" if "inside the box" in problems[0] else "corrector" if "corrector" in problems[0] else "gradient-shape"),
                                      "flavour": desc["flavour"].split("-")[0], "nan": bool(np.any(np.isnan(x)))},
                                     {"oracle": "misfit", "stimulus": stim, "problems": problems}))
         if desc["flavour"] == "normal-own":
@@ -278,7 +361,8 @@ def run(tier, seed):
                 findings.append(Finding("C06", f"{kind} step {step:g} on {desc['flavour']}: {problems[0]}",
                                         {"kind": "chain", "problem": problems[0][:22]},
                                         {"oracle": "chain", "stimulus": stim, "problems": problems}))
-    return [st, su, sc], findings
+    sr = raytracing_suite(random.Random(seed * 48271 + 6), 6 if thorough else 2, findings)
+    return [st, su, sc, sr], findings
 
 
 def search(tier, seed, broken):
